@@ -161,6 +161,7 @@ def import_geogram_ascii(path):
 
         if chk.type == Chunk.Type.ATTS or chk.type == Chunk.Type.HEAD: continue # already treated and HEAD is ignored
         # chk.type is now [ATTR]
+        if chk.name in ("\"GEO::Mesh::facets::facet_ptr\"", "\"GEO::Mesh::cells::cell_ptr\""): continue # structure of the file, used above: not a user attribute
 
         # first handle special cases : vertices coordinates, edges, faces and cells connectivity
         if chk.container == Chunk.Container.VERTICES and chk.name == "\"point\"":
